@@ -111,6 +111,8 @@ HARNESSES = {
     "x1300": ("xcube", 3, [[36], [36]], None, ["count"]),
     "c1300": ("ccube", 3, [[36], [36]], [0, 1], ["count"]),
     "x6": ("xcube", 2, [[3], [2]], None, ["count", "mean2_w"]),
+    "x3huge": ("xcube", 6, [[3]], None, ["stddev_huge", "sum_huge"]),
+    "x2huge": ("xcube", 4, [[2]], None, ["stddev_huge"]),
 }
 
 
@@ -155,6 +157,10 @@ def make_funcs(kind, N, names):
             "sum_p": lambda: F.xfunc_sum(fact2_pair(N), weights_pair(N), True),
             "max_p": lambda: F.xfunc_max(fact1_pair(N), True, (0, False)),
             "covariance_p": lambda: F.xfunc_covariance(fact2_pair(N), weights_pair(N), True),
+            # magnitudes whose squares overflow: whatever the kernels do about floating-point warnings / error state (process-global
+            # settings) must not make one worker's answer depend on what another worker is doing
+            "stddev_huge": lambda: F.xfunc_stddev(FACT2(N) * 1e160),
+            "sum_huge": lambda: F.xfunc_sum(FACT1(N) * 1e307),
         }
     return [table[n]() for n in names]
 
